@@ -220,4 +220,243 @@ theorem vecFrom_ok (op : Nat) :
     | head => exact Nat.lt_succ_self _
     | tail _ h' => exact Nat.lt_succ_of_lt (hW w h')
 
+/-! ### interior aliasing -/
+
+theorem place_recv_ne (ρ : Placement) (hρ : recvInjective ρ) {f f' : Nat} (h : f ≠ f') :
+    place ρ (.param 0 f) ≠ place ρ (.param 0 f') := by
+  intro e
+  apply h
+  apply hρ
+  simp only [place] at e
+  injection e with h1 h2
+  exact Prod.ext h1 h2
+
+theorem interior_set_recv (ρ : Placement) (hρ : recvInjective ρ) (M M' : Mem V) (f0 : Nat) (v : V)
+    (hl : ∀ k, M (.loc k) = M' (.loc k)) (hr : ∀ f, M (place ρ (.param 0 f)) = M' (.obj 0 f)) :
+    (∀ k, (M.set (place ρ (.param 0 f0)) v) (.loc k) = (M'.set (.obj 0 f0) v) (.loc k)) ∧
+    (∀ f, (M.set (place ρ (.param 0 f0)) v) (place ρ (.param 0 f)) = (M'.set (.obj 0 f0) v) (.obj 0 f)) := by
+  constructor
+  · intro k
+    rw [Mem.set_other _ _ _ _ (by simp [place]), Mem.set_other _ _ _ _ (by simp)]
+    exact hl k
+  · intro f
+    by_cases h : f = f0
+    · subst h; simp
+    · rw [Mem.set_other _ _ _ _ (place_recv_ne ρ hρ h), Mem.set_other _ _ _ _ (by simp [h])]
+      exact hr f
+
+theorem interior_set_loc (ρ : Placement) (M M' : Mem V) (k0 : Nat) (v : V)
+    (hl : ∀ k, M (.loc k) = M' (.loc k)) :
+    (∀ k, (M.set (.loc k0) v) (.loc k) = (M'.set (.loc k0) v) (.loc k)) ∧
+    (∀ i f, (M.set (.loc k0) v) (place ρ (.param i f)) = M (place ρ (.param i f))) ∧
+    (∀ i f, (M'.set (.loc k0) v) (.obj i f) = M' (.obj i f)) := by
+  refine ⟨?_, ?_, ?_⟩
+  · intro k
+    by_cases h : k = k0
+    · subst h; simp
+    · rw [Mem.set_other _ _ _ _ (by simp [h]), Mem.set_other _ _ _ _ (by simp [h])]
+      exact hl k
+  · intro i f
+    exact Mem.set_other _ _ _ _ (by simp [place])
+  · intro i f
+    exact Mem.set_other _ _ _ _ (by simp)
+
+/-- after the first write to a receiver component only locals are read -/
+theorem interior_phase2 (I : Nat → List V → V) (ρ : Placement) (hρ : recvInjective ρ) (b : Body) :
+    ∀ (M M' : Mem V), copyInStrictAux true b = true →
+      (∀ k, M (.loc k) = M' (.loc k)) → (∀ f, M (place ρ (.param 0 f)) = M' (.obj 0 f)) →
+      ∀ f, runAt I ρ b M (place ρ (.param 0 f)) = run I id b M' (.obj 0 f) := by
+  induction b with
+  | nil => intro M M' _ _ hr f; exact hr f
+  | cons p b ih =>
+    intro M M' hc hl hr f
+    simp only [copyInStrictAux, Bool.and_eq_true] at hc
+    obtain ⟨hs, hrest⟩ := hc
+    have hloc : p.srcs.all (fun s => !isParam s) = true := by simpa using hs
+    have hv : (p.srcs.map fun s => M (place ρ s)) = (p.srcs.map fun s => M' (resolve id s)) := by
+      apply List.map_congr_left
+      intro s hmem
+      have := List.all_eq_true.mp hloc s hmem
+      cases s with
+      | loc k => exact hl k
+      | param i f => simp [isParam] at this
+    have e1 : stepAt I ρ M p = M.set (place ρ p.dst) (I p.op (p.srcs.map fun s => M' (resolve id s))) := by
+      unfold stepAt; rw [hv]
+    have e2 : step I id M' p = M'.set (resolve id p.dst) (I p.op (p.srcs.map fun s => M' (resolve id s))) := rfl
+    simp only [runAt, run, List.foldl_cons]
+    cases hd : p.dst with
+    | loc k0 =>
+      rw [hd] at hrest
+      obtain ⟨h1, h2, h3⟩ := interior_set_loc ρ M M' k0 (I p.op (p.srcs.map fun s => M' (resolve id s))) hl
+      have := ih (stepAt I ρ M p) (step I id M' p) hrest
+        (by intro k; rw [e1, e2, hd]; exact h1 k)
+        (by intro g; rw [e1, e2, hd]
+            exact (h2 0 g).trans ((hr g).trans (h3 0 g).symm)) f
+      exact this
+    | param i g0 =>
+      cases i with
+      | zero =>
+        rw [hd] at hrest
+        obtain ⟨h1, h2⟩ := interior_set_recv ρ hρ M M' g0 (I p.op (p.srcs.map fun s => M' (resolve id s))) hl hr
+        have := ih (stepAt I ρ M p) (step I id M' p) hrest
+          (by intro k; rw [e1, e2, hd]; exact h1 k)
+          (by intro g; rw [e1, e2, hd]; exact h2 g) f
+        exact this
+      | succ j =>
+        rw [hd] at hrest
+        exact absurd hrest (by simp)
+
+/-- before the first write to a receiver component every parameter component still holds its initial value -/
+theorem interior_phase1 (I : Nat → List V → V) (ρ : Placement) (hρ : recvInjective ρ) (b : Body) :
+    ∀ (M M' : Mem V), copyInStrictAux false b = true →
+      (∀ k, M (.loc k) = M' (.loc k)) → (∀ i f, M (place ρ (.param i f)) = M' (.obj i f)) →
+      ∀ f, runAt I ρ b M (place ρ (.param 0 f)) = run I id b M' (.obj 0 f) := by
+  induction b with
+  | nil => intro M M' _ _ hr f; exact hr 0 f
+  | cons p b ih =>
+    intro M M' hc hl hr f
+    simp only [copyInStrictAux, Bool.and_eq_true] at hc
+    obtain ⟨_, hrest⟩ := hc
+    have hv : (p.srcs.map fun s => M (place ρ s)) = (p.srcs.map fun s => M' (resolve id s)) := by
+      apply List.map_congr_left
+      intro s _
+      cases s with
+      | loc k => exact hl k
+      | param i f => exact hr i f
+    have e1 : stepAt I ρ M p = M.set (place ρ p.dst) (I p.op (p.srcs.map fun s => M' (resolve id s))) := by
+      unfold stepAt; rw [hv]
+    have e2 : step I id M' p = M'.set (resolve id p.dst) (I p.op (p.srcs.map fun s => M' (resolve id s))) := rfl
+    simp only [runAt, run, List.foldl_cons]
+    cases hd : p.dst with
+    | loc k0 =>
+      rw [hd] at hrest
+      obtain ⟨h1, h2, h3⟩ := interior_set_loc ρ M M' k0 (I p.op (p.srcs.map fun s => M' (resolve id s))) hl
+      have := ih (stepAt I ρ M p) (step I id M' p) hrest
+        (by intro k; rw [e1, e2, hd]; exact h1 k)
+        (by intro i g; rw [e1, e2, hd]
+            exact (h2 i g).trans ((hr i g).trans (h3 i g).symm)) f
+      exact this
+    | param i g0 =>
+      cases i with
+      | zero =>
+        rw [hd] at hrest
+        obtain ⟨h1, h2⟩ := interior_set_recv ρ hρ M M' g0 (I p.op (p.srcs.map fun s => M' (resolve id s))) hl (hr 0)
+        have := interior_phase2 I ρ hρ b (stepAt I ρ M p) (step I id M' p) hrest
+          (by intro k; rw [e1, e2, hd]; exact h1 k)
+          (by intro g; rw [e1, e2, hd]; exact h2 g) f
+        exact this
+      | succ j =>
+        rw [hd] at hrest
+        exact absurd hrest (by simp)
+
+/-! ### typed interior aliasing -/
+
+structure SimM (low : Nat → Bool) (π : Pattern) (ρ : Placement) (W : List Nat) (M M' : Mem V) : Prop where
+  loc : ∀ k, M (.loc k) = M' (.loc k)
+  recv : ∀ f, M (.obj (π 0) f) = M' (.obj 0 f)
+  big : ∀ i f, low (i + 1) = false → f ∉ W → M (.obj (π (i + 1)) f) = M' (.obj (i + 1) f)
+  lowp : W = [] → ∀ i f, low i = true → M (place ρ (.param i f)) = M' (.obj i f)
+
+theorem place_big {low : Nat → Bool} {π : Pattern} {ρ : Placement} (hm : mixedPlacement low π ρ) (i f : Nat)
+    (h : low i = false) : place ρ (.param i f) = .obj (π i) f := by
+  simp only [place, hm.2 i h f]
+
+theorem SimM.read {low : Nat → Bool} {π : Pattern} {ρ : Placement} {W : List Nat} {M M' : Mem V}
+    (hm : mixedPlacement low π ρ) (h : SimM low π ρ W M M') (s : Name) (hs : srcOKMixed low W s = true) :
+    M (place ρ s) = M' (resolve id s) := by
+  cases s with
+  | loc k => exact h.loc k
+  | param i f =>
+    cases i with
+    | zero => rw [place_big hm 0 f hm.1]; exact h.recv f
+    | succ j =>
+      cases hl : low (j + 1) with
+      | true =>
+        simp only [srcOKMixed, hl, if_true] at hs
+        have hW : W = [] := List.isEmpty_iff.mp hs
+        exact h.lowp hW (j + 1) f hl
+      | false =>
+        simp only [srcOKMixed, hl] at hs
+        have hW : f ∉ W := by simpa using hs
+        rw [place_big hm (j + 1) f hl]
+        exact h.big j f hl hW
+
+theorem SimM.step_loc {low : Nat → Bool} {π : Pattern} {ρ : Placement} {W : List Nat} {M M' : Mem V}
+    (h : SimM low π ρ W M M') (k0 : Nat) (v : V) : SimM low π ρ W (M.set (.loc k0) v) (M'.set (.loc k0) v) where
+  loc := by
+    intro k
+    by_cases e : k = k0
+    · subst e; simp
+    · rw [Mem.set_other _ _ _ _ (by simp [e]), Mem.set_other _ _ _ _ (by simp [e])]; exact h.loc k
+  recv := by
+    intro f
+    rw [Mem.set_other _ _ _ _ (by simp), Mem.set_other _ _ _ _ (by simp)]; exact h.recv f
+  big := by
+    intro i f hl hW
+    rw [Mem.set_other _ _ _ _ (by simp), Mem.set_other _ _ _ _ (by simp)]; exact h.big i f hl hW
+  lowp := by
+    intro hW i f hl
+    rw [Mem.set_other _ _ _ _ (by simp [place]), Mem.set_other _ _ _ _ (by simp)]; exact h.lowp hW i f hl
+
+theorem SimM.step_recv {low : Nat → Bool} {π : Pattern} {ρ : Placement} {W : List Nat} {M M' : Mem V}
+    (h : SimM low π ρ W M M') (f0 : Nat) (v : V) :
+    SimM low π ρ (f0 :: W) (M.set (.obj (π 0) f0) v) (M'.set (.obj 0 f0) v) where
+  loc := by
+    intro k
+    rw [Mem.set_other _ _ _ _ (by simp), Mem.set_other _ _ _ _ (by simp)]; exact h.loc k
+  recv := by
+    intro f
+    by_cases e : f = f0
+    · subst e; simp
+    · rw [Mem.set_other _ _ _ _ (by simp [e]), Mem.set_other _ _ _ _ (by simp [e])]; exact h.recv f
+  big := by
+    intro i f hl hW
+    have e : f ≠ f0 := fun e => hW (by simp [e])
+    have hW' : f ∉ W := fun m => hW (List.mem_cons_of_mem _ m)
+    rw [Mem.set_other _ _ _ _ (by simp [e]), Mem.set_other _ _ _ _ (by simp [e])]; exact h.big i f hl hW'
+  lowp := by
+    intro hW
+    exact absurd hW (by simp)
+
+theorem simM_run (I : Nat → List V → V) (low : Nat → Bool) (π : Pattern) (ρ : Placement) (hm : mixedPlacement low π ρ)
+    (b : Body) : ∀ (W : List Nat) (M M' : Mem V), copyInMixedAux low W b = true → SimM low π ρ W M M' →
+      ∀ f, runAt I ρ b M (.obj (π 0) f) = run I id b M' (.obj 0 f) := by
+  induction b with
+  | nil => intro W M M' _ h f; exact h.recv f
+  | cons p b ih =>
+    intro W M M' hc h f
+    simp only [copyInMixedAux, Bool.and_eq_true] at hc
+    obtain ⟨hs, hrest⟩ := hc
+    have hv : (p.srcs.map fun s => M (place ρ s)) = (p.srcs.map fun s => M' (resolve id s)) := by
+      apply List.map_congr_left
+      intro s hmem
+      exact h.read hm s (List.all_eq_true.mp hs s hmem)
+    have e1 : stepAt I ρ M p = M.set (place ρ p.dst) (I p.op (p.srcs.map fun s => M' (resolve id s))) := by
+      unfold stepAt; rw [hv]
+    have e2 : step I id M' p = M'.set (resolve id p.dst) (I p.op (p.srcs.map fun s => M' (resolve id s))) := rfl
+    simp only [runAt, run, List.foldl_cons]
+    cases hd : p.dst with
+    | loc k0 =>
+      rw [hd] at hrest
+      refine ih W (stepAt I ρ M p) (step I id M' p) hrest ?_ f
+      rw [e1, e2, hd]
+      exact h.step_loc k0 _
+    | param i g0 =>
+      cases i with
+      | zero =>
+        rw [hd] at hrest
+        refine ih (g0 :: W) (stepAt I ρ M p) (step I id M' p) hrest ?_ f
+        rw [e1, e2, hd, place_big hm 0 g0 hm.1]
+        exact h.step_recv g0 _
+      | succ j =>
+        rw [hd] at hrest
+        exact absurd hrest (by simp)
+
+theorem simM_init (low : Nat → Bool) (π : Pattern) (ρ : Placement) (hm : mixedPlacement low π ρ) (m : Mem V) :
+    SimM low π ρ [] m (pullAt ρ m) where
+  loc := fun _ => rfl
+  recv := by intro f; show m (.obj (π 0) f) = m (place ρ (.param 0 f)); rw [place_big hm 0 f hm.1]
+  big := by intro i f hl _; show m (.obj (π (i + 1)) f) = m (place ρ (.param (i + 1) f)); rw [place_big hm (i + 1) f hl]
+  lowp := fun _ _ _ _ => rfl
+
 end GV.Alias
